@@ -303,6 +303,8 @@ class Check:
             self.cov["samples"].append(sample)
 
     def fail(self, signature, what, case, observed=None, expected=None, stage="oracle"):
+        if not isinstance(signature, str):
+            signature = "|".join(str(x) for x in signature)
         self.failures.append({"signature": signature, "what": what, "case": case,
                               "observed": observed, "expected": expected, "stage": stage})
 
